@@ -475,20 +475,28 @@ fn unit_maps() -> Vec<Vec<(u8, AppSpec)>> {
 
 const TXS: [u16; 4] = [0, 1, 0x7FFF, 0xFFFF];
 
+pub type Alphabet = Vec<(&'static str, u8, Vec<u8>)>;
+
+pub fn default_alphabet(cfg: &ServerCfg) -> Alphabet {
+    let u = cfg.units[cfg.units.len() / 2].0;
+    let other = if cfg.units.iter().any(|x| x.0 == 9) { 10 } else { 9 };
+    sequence_alphabet(u, other)
+}
+
 pub fn explore_sequences(
     prop: &str,
     cfgs: &[ServerCfg],
     depth: usize,
     aspects: &str,
+    alpha_fn: &(dyn Fn(&ServerCfg) -> Alphabet + Sync),
 ) -> Stats {
     // first-level branching: (cfg, first symbol)
-    let n_sym = 24usize;
+    let n_sym = alpha_fn(&cfgs[0]).len();
     parallel(cfgs.len() * n_sym, |job, st| {
         let cfg = &cfgs[job / n_sym];
         let first = job % n_sym;
-        let u = cfg.units[cfg.units.len() / 2].0;
-        let other = if cfg.units.iter().any(|x| x.0 == 9) { 10 } else { 9 };
-        let alpha = sequence_alphabet(u, other);
+        let alpha = alpha_fn(cfg);
+        assert_eq!(alpha.len(), n_sym);
         let mut path: Vec<usize> = vec![first];
         fn rec(
             prop: &str,
@@ -598,11 +606,11 @@ pub fn check_c01(tier: &str) -> i32 {
         "model_checking",
         "every request of the single-request space and every sequence of <= D requests over a 24-symbol alphabet is delivered to the production server session (TCP and RTU framing, 3 unit maps, 3 application states); after every request the bytes written are compared with the reference server. distinct = distinct (reply bytes, number of handler calls) observations",
     );
-    let depth = if rep.thorough() { 4 } else { 2 };
+    let depth = if rep.thorough() { 5 } else { 3 };
     rep.bounds = json!({"sequence_depth": depth, "alphabet": 24, "framings": ["tcp", "rtu"], "unit_maps": 3});
     run_sweeps("C01", &mut rep, "R");
     let cfgs = base_cfgs(None);
-    let st = explore_sequences("C01", &cfgs, depth, "R");
+    let st = explore_sequences("C01", &cfgs, depth, "R", &default_alphabet);
     rep.phase("sequences", st, json!({"depth": depth, "configs": cfgs.len()}));
     for c in ["read-ok", "read-exception", "write-ok", "write-exception", "unknown-function", "empty", "unconfigured-unit", "invalid:fc15:over-limit", "invalid:fc1:over-limit", "invalid:fc5:coil-value", "invalid:fc3:length"] {
         rep.require_class(c);
@@ -619,8 +627,8 @@ pub fn check_c02(tier: &str) -> i32 {
         "model_checking",
         "same executions as C01, with and without an authorization handler; the ordered log of the instrumented RequestHandler (writes exact incl. collected iterator items and len(); reads within the requested range of the addressed unit) and the application state after each sequence are compared with the reference server",
     );
-    let depth = if rep.thorough() { 4 } else { 2 };
-    rep.bounds = json!({"sequence_depth": depth, "alphabet": 24});
+    let depth = if rep.thorough() { 5 } else { 3 };
+    rep.bounds = json!({"sequence_depth": depth.min(4), "alphabet": 24});
     run_sweeps("C02", &mut rep, "H");
     let mut cfgs = base_cfgs(None);
     // with an authorization handler that allows everything / only reads
@@ -630,8 +638,8 @@ pub fn check_c02(tier: &str) -> i32 {
     for c in base_cfgs(Some((PolicySpec::FcMask(0x0F), "viewer".into()))).into_iter().filter(|c| !c.rtu).take(1) {
         cfgs.push(c);
     }
-    let st = explore_sequences("C02", &cfgs, depth.min(3), "H");
-    rep.phase("sequences", st, json!({"depth": depth.min(3), "configs": cfgs.len()}));
+    let st = explore_sequences("C02", &cfgs, depth.min(4), "H", &default_alphabet);
+    rep.phase("sequences", st, json!({"depth": depth.min(4), "configs": cfgs.len()}));
     for c in ["read-ok", "write-ok", "write-exception", "unknown-function", "empty", "unconfigured-unit", "denied", "invalid:fc15:over-limit"] {
         rep.require_class(c);
     }
@@ -642,4 +650,245 @@ pub fn replay(scn: &ServerScenario) -> Vec<(String, String, usize)> {
     let frames: Vec<Req3> = scn.frames.iter().map(|(t, u, p)| (*t, *u, from_hex(p))).collect();
     let mut st = Stats::default();
     run_sequence(&scn.cfg, &frames, &scn.aspects, &mut st)
+}
+
+// ---------------------------------------------------------------------------------------------
+// C17: multi-drop discipline
+// ---------------------------------------------------------------------------------------------
+
+fn c17_unit_maps() -> Vec<Vec<(u8, AppSpec)>> {
+    let apps = app_variants();
+    vec![
+        vec![],
+        vec![(1, apps[0].clone())],
+        vec![(1, apps[0].clone()), (2, apps[2].clone())],
+        // the unit in the middle fails every write
+        vec![(1, apps[1].clone()), (2, apps[2].clone()), (247, apps[0].clone())],
+    ]
+}
+
+/// eight kinds x {valid, failing in the handler, malformed}
+fn c17_kinds() -> Vec<(&'static str, Vec<u8>)> {
+    let wsc = |a: u16, val: u16| {
+        let mut p = vec![5u8];
+        p.extend_from_slice(&be(a));
+        p.extend_from_slice(&be(val));
+        p
+    };
+    let wsr = |a: u16, val: u16| {
+        let mut p = vec![6u8];
+        p.extend_from_slice(&be(a));
+        p.extend_from_slice(&be(val));
+        p
+    };
+    vec![
+        ("rc-valid", read_pdu(1, 0, 5)),
+        ("rc-fails", read_pdu(1, 0x20, 2)),
+        ("rc-malformed", read_pdu(1, 0, 0)),
+        ("rd-valid", read_pdu(2, 1, 9)),
+        ("rd-fails", read_pdu(2, 0x21, 1)),
+        ("rd-malformed", vec![2, 0, 1]),
+        ("rh-valid", read_pdu(3, 0, 3)),
+        ("rh-fails", read_pdu(3, 0x22, 2)),
+        ("rh-malformed", read_pdu(3, 0xFFFF, 2)),
+        ("ri-valid", read_pdu(4, 2, 2)),
+        ("ri-fails", read_pdu(4, 0x23, 1)),
+        ("ri-malformed", read_pdu(4, 0, 126)),
+        ("wsc-valid", wsc(1, 0xFF00)),
+        ("wsc-fails", wsc(0x20, 0x0000)),
+        ("wsc-malformed", wsc(1, 0x00FF)),
+        ("wsr-valid", wsr(2, 0x55AA)),
+        ("wsr-fails", wsr(0x22, 7)),
+        ("wsr-malformed", vec![6, 0, 2, 0]),
+        ("wmc-valid", write_multi_pdu(15, 2, 9, 2, &[0xFF, 0x01])),
+        ("wmc-fails", write_multi_pdu(15, 0x1F, 3, 1, &[0x05])),
+        ("wmc-malformed", write_multi_pdu(15, 2, 9, 1, &[0xFF])),
+        ("wmr-valid", write_multi_pdu(16, 3, 2, 4, &[1, 2, 3, 4])),
+        ("wmr-fails", write_multi_pdu(16, 0x21, 2, 4, &[1, 2, 3, 4])),
+        ("wmr-malformed", write_multi_pdu(16, 3, 0, 0, &[])),
+    ]
+}
+
+fn c17_alphabet(cfg: &ServerCfg) -> Alphabet {
+    let k = c17_kinds();
+    let get = |n: &str| k.iter().find(|x| x.0 == n).unwrap().1.clone();
+    let conf = cfg.units.first().map(|x| x.0).unwrap_or(1);
+    let last = cfg.units.last().map(|x| x.0).unwrap_or(1);
+    vec![
+        ("bcast-wsc", 0, get("wsc-valid")),
+        ("bcast-wsr", 0, get("wsr-valid")),
+        ("bcast-wmc", 0, get("wmc-valid")),
+        ("bcast-wmr", 0, get("wmr-valid")),
+        ("bcast-wsr-fails", 0, get("wsr-fails")),
+        ("bcast-read", 0, get("rh-valid")),
+        ("bcast-malformed", 0, get("wmc-malformed")),
+        ("unicast-write", conf, get("wsr-valid")),
+        ("unicast-unconfigured", 77, get("wsr-valid")),
+        ("unicast-unconfigured-malformed", 77, get("rc-malformed")),
+        ("sentinel-read", last, read_pdu(3, 0, 8)),
+        ("sentinel-read-coils", conf, read_pdu(1, 0, 12)),
+    ]
+}
+
+pub fn check_c17(tier: &str) -> i32 {
+    let mut rep = Report::new(
+        "C17",
+        tier,
+        "model_checking",
+        "for every handler map of 0..3 units, every destination 0..=255 and each of the eight request kinds in three flavours (valid, failing in the handler, malformed) plus unknown function codes, on RTU and TCP framing, the bytes written and the handler log are compared with the reference server (silence unless unicast to a configured unit; RTU broadcast writes reach every unit exactly once and are never answered; broadcast reads ignored); then all sequences of <= D events over a 12-symbol alphabet mixing broadcast, unicast and sentinel reads",
+    );
+    let depth = if rep.thorough() { 5 } else { 3 };
+    rep.bounds = json!({"sequence_depth": depth, "destinations": 256, "unit_maps": 4, "kinds": 24});
+    let mut kinds = c17_kinds();
+    kinds.push(("unknown-fc", vec![0x2B, 1, 2]));
+    kinds.push(("unknown-fc-high", vec![0x81, 1]));
+    kinds.push(("empty", vec![]));
+    let mut cfgs = vec![];
+    for rtu in [true, false] {
+        for units in c17_unit_maps() {
+            cfgs.push(ServerCfg { rtu, units, auth: None, decode: (0, 0, 0) });
+        }
+    }
+    // all destinations x all kinds, each on a fresh session (so nothing carries over)
+    let st = parallel(cfgs.len() * 256, |job, st| {
+        let cfg = &cfgs[job / 256];
+        let dest = (job % 256) as u8;
+        for (name, p) in &kinds {
+            let frames = vec![(0x0102u16, dest, p.clone())];
+            if !framable(cfg.rtu, dest, p) {
+                st.class("skipped-unframable");
+                continue;
+            }
+            st.evaluations += 1;
+            st.traces += 1;
+            for (sig, desc, _) in run_sequence(cfg, &frames, "RH", st) {
+                st.violation(Violation {
+                    signature: sig,
+                    summary: format!(
+                        "{} units {:?} dest {dest} kind {name}: {desc}",
+                        if cfg.rtu { "RTU" } else { "TCP" },
+                        cfg.units.iter().map(|x| x.0).collect::<Vec<_>>()
+                    ),
+                    replay: json!({"kind": "server", "property": "C17", "scenario": scenario_of(cfg, &frames, "RH")}),
+                });
+            }
+            if st.traces % 1201 == 1 {
+                st.sample(json!({"rtu": cfg.rtu, "units": cfg.units.iter().map(|x| x.0).collect::<Vec<_>>(), "dest": dest, "kind": name}));
+            }
+        }
+    });
+    rep.phase("destination x kind grid", st, json!({"configs": cfgs.len()}));
+    let seq_cfgs: Vec<ServerCfg> = cfgs.iter().filter(|c| !c.units.is_empty()).cloned().collect();
+    let st = explore_sequences("C17", &seq_cfgs, depth, "RH", &c17_alphabet);
+    rep.phase("sequences", st, json!({"depth": depth, "configs": seq_cfgs.len(), "alphabet": 12}));
+    for c in ["broadcast-write", "broadcast-read", "unconfigured-unit", "write-ok", "read-ok", "write-exception"] {
+        rep.require_class(c);
+    }
+    rep.assumptions.push("the order in which a broadcast write reaches the units is not specified and not judged".into());
+    rep.finish()
+}
+
+// ---------------------------------------------------------------------------------------------
+// C08: authorization
+// ---------------------------------------------------------------------------------------------
+
+fn c08_alphabet(cfg: &ServerCfg) -> Alphabet {
+    let u = cfg.units[0].0;
+    let u2 = cfg.units.last().unwrap().0;
+    let wsc = |a: u16, val: u16| {
+        let mut p = vec![5u8];
+        p.extend_from_slice(&be(a));
+        p.extend_from_slice(&be(val));
+        p
+    };
+    let wsr = |a: u16, val: u16| {
+        let mut p = vec![6u8];
+        p.extend_from_slice(&be(a));
+        p.extend_from_slice(&be(val));
+        p
+    };
+    vec![
+        ("rc-0-4", u, read_pdu(1, 0, 4)),
+        ("rc-8-10", u2, read_pdu(1, 8, 10)),
+        ("rd-3-5", u, read_pdu(2, 3, 5)),
+        ("rh-2-3", u, read_pdu(3, 2, 3)),
+        ("ri-9-1", u2, read_pdu(4, 9, 1)),
+        ("wsc-2", u, wsc(2, 0xFF00)),
+        ("wsc-3", u2, wsc(3, 0x0000)),
+        ("wsr-4", u, wsr(4, 0x1111)),
+        ("wsr-7", u2, wsr(7, 0x2222)),
+        ("wmc-0-3", u, write_multi_pdu(15, 0, 3, 1, &[0x05])),
+        ("wmc-9-9", u2, write_multi_pdu(15, 9, 9, 2, &[0xFF, 0x01])),
+        ("wmr-1-2", u, write_multi_pdu(16, 1, 2, 4, &[0, 9, 0, 8])),
+        ("wmr-8-5", u2, write_multi_pdu(16, 8, 5, 10, &[0, 1, 0, 2, 0, 3, 0, 4, 0, 5])),
+        ("malformed", u, read_pdu(3, 0, 0)),
+        ("unknown-fc", u, vec![0x11]),
+        ("other-unit-read", 99, read_pdu(3, 0, 2)),
+        ("other-unit-write", 99, wsr(0, 1)),
+        ("observe", u, read_pdu(3, 0, 12)),
+    ]
+}
+
+pub fn c08_policies(thorough: bool) -> Vec<PolicySpec> {
+    let mut v = vec![];
+    if thorough {
+        for m in 0..=255u8 {
+            v.push(PolicySpec::FcMask(m));
+        }
+    } else {
+        for m in [0x00u8, 0xFF, 0x0F, 0xF0, 0x55, 0xAA, 0x01, 0x02, 0x04, 0x08, 0x10, 0x20, 0x40, 0x80, 0xFE, 0x7F] {
+            v.push(PolicySpec::FcMask(m));
+        }
+    }
+    v.push(PolicySpec::UnitIs(1));
+    v.push(PolicySpec::UnitIs(2));
+    v.push(PolicySpec::UnitIs(99));
+    v.push(PolicySpec::StartBelow(8));
+    v.push(PolicySpec::StartBelow(3));
+    v.push(PolicySpec::CountAtMost(4));
+    v.push(PolicySpec::CountAtMost(1));
+    v.push(PolicySpec::IndexEven);
+    v.push(PolicySpec::RoleIs("operator".into()));
+    v.push(PolicySpec::FirstOnly);
+    v.push(PolicySpec::Alternate);
+    v.push(PolicySpec::BuiltinReadOnly);
+    v
+}
+
+pub fn check_c08(tier: &str) -> i32 {
+    let mut rep = Report::new(
+        "C08",
+        tier,
+        "model_checking",
+        "production server session with AuthorizationType::Handler(handler, role): all sequences of <= D requests over an 18-symbol alphabet (eight kinds with two ranges each, malformed, unknown function, unconfigured unit, observing read) x policies (per-function masks, unit/range/index/role predicates, stateful first-only and alternating, the built-in read-only policy) x role strings; the interleaved log of authorization and point-handler calls, the reply bytes and the final application state are compared with the reference server",
+    );
+    let thorough = rep.thorough();
+    let depth = if thorough { 3 } else { 2 };
+    let apps = app_variants();
+    let roles: Vec<String> = vec!["".into(), "operator".into(), "viewer".into(), "Ωμέγα".into(), "r".repeat(300)];
+    let mut cfgs = vec![];
+    for (pi, p) in c08_policies(thorough).into_iter().enumerate() {
+        for (ri, role) in roles.iter().enumerate() {
+            // every policy with two roles (all roles for the role-sensitive ones)
+            let role_sensitive = matches!(p, PolicySpec::RoleIs(_));
+            if !(role_sensitive || thorough && pi % 7 == ri || ri == pi % 5 || ri == 1) {
+                continue;
+            }
+            cfgs.push(ServerCfg {
+                rtu: false,
+                units: vec![(1, apps[0].clone()), (2, apps[1].clone())],
+                auth: Some((p.clone(), role.clone())),
+                decode: (0, 0, 0),
+            });
+        }
+    }
+    // RTU framing never carries authorization in production; one TCP config without auth as the
+    // differential baseline is part of C01/C02
+    rep.bounds = json!({"sequence_depth": depth, "alphabet": 18, "configs": cfgs.len(), "roles": roles.len()});
+    let st = explore_sequences("C08", &cfgs, depth, "RH", &c08_alphabet);
+    rep.phase("sequences", st, json!({"depth": depth, "configs": cfgs.len()}));
+    for c in ["denied", "read-ok", "write-ok", "unconfigured-unit", "unknown-function", "invalid:fc3:count-zero"] {
+        rep.require_class(c);
+    }
+    rep.finish()
 }
